@@ -373,8 +373,16 @@ pub fn c3(a: u8, b: i64, c: u32) {
 pub fn c6(a: i64, b: i64, c: i64, d: i64, e: i64, f: i64) {
     log_call(6, [a, b, c, d, e, f]);
 }
+#[inline(never)]
+pub fn cp(p: *const u64, k: i64) {
+    log_call(7, [unsafe { core::ptr::read_volatile(p) } as i64, k, 0, 0, 0, 0]);
+}
+#[inline(never)]
+pub fn cq(k: i64, p: *const u64, q: *const u64) {
+    log_call(8, [k, unsafe { core::ptr::read_volatile(p) } as i64, unsafe { core::ptr::read_volatile(q) } as i64, 0, 0, 0]);
+}
 "#);
-        functions.extend(["c0", "c1", "c2", "c3", "c6"].iter().map(|x| x.to_string()));
+        functions.extend(["c0", "c1", "c2", "c3", "c6", "cp", "cq"].iter().map(|x| x.to_string()));
     }
     s.l("#[unsafe(no_mangle)]", None);
     s.l("pub extern \"C\" fn main(_argc: i32, _argv: *const *const u8) -> i32 {", None);
@@ -441,6 +449,8 @@ pub fn c6(a: i64, b: i64, c: i64, d: i64, e: i64, f: i64) {
                 s.l("    c2(-2, true);", None);
                 s.l("    c3(200, 7, 9);", None);
                 s.l("    c6(1, 2, 3, 4, 5, 6);", Some(&m("c6")));
+                s.l("    cp(&raw const ACC, 3);", None);
+                s.l("    cq(4, &raw const ACC, &raw const LOGN);", None);
             }
             Stmt::Sleep(ms) => {
                 s.l("    a += 5;", Some(&m("presleep")));
